@@ -546,15 +546,15 @@ def make_dict_hash(d):
             'The d argument must be of type dict!')
 
     # A note on the ordering of Python dictionary items: The items are ordered
-    # internally according to the hash value of their keys. Hence, if we don't
-    # insert more dictionary items, the order of the items won't change. Thus,
-    # we can just take the items list and make a tuple to create a hash of it.
+    # according to their insertion order. Two dictionaries having the same
+    # items can therefore have different item orders. Hence, we create the hash
+    # of the (unordered) set of items.
     # The hash will be the same for two dictionaries having the same items.
     #
     # Float values enter with their exact representation, because the hashes of
     # different floats can be equal (hash(-1.0) == hash(-2.0) in CPython), which
     # would give two different grid values the same dictionary hash.
-    return hash(tuple(
+    return hash(frozenset(
         (k, (float(v) + 0.0).hex() if isinstance(v, (float, np.floating)) else v)
         for (k, v) in d.items()
     ))
